@@ -249,6 +249,35 @@ def run(ctx):
             if len(sigs) == 1 and len(s1) == 1:
                 table["%#04x %#04x" % (b, b2)] = (sorted(s1)[0], sorted(sigs)[0])
     chk.floor("instruction forms with a fixed length", nforms, 1493)
+    # ---- the documented cost per form: sibling agreement and reference table -----------------
+    # forms that differ only in register numbers run the same routine through aliased entry words;
+    # their signatures (control words, bus accesses) must agree, and equal the documented cost
+    ref = spec.load("cycles")["cost"]
+
+    def group_of(key):
+        parts = key.split()
+        b = int(parts[0], 16)
+        if len(parts) == 1:
+            if 0x60 <= b <= 0xDF:
+                return "%#04x" % (b & 0xF0)
+            if 0x20 <= b <= 0x27:
+                return "%#04x" % b          # each jump condition is its own form
+            return "%#04x" % (b & 0xFC)
+        b2 = int(parts[1], 16)
+        return "%#04x %#04x" % (b & 0xFC, b2 & 0xFC)
+    groups = {}
+    for key, sg in table.items():
+        groups.setdefault(group_of(key), {}).setdefault(_norm(sg), []).append(key)
+    for gk, variants in sorted(groups.items()):
+        chk.ob("cost/siblings/%s" % gk, len(variants) == 1,
+               "instruction forms that differ only in the registers named cost the same number of control words and bus accesses",
+               "forms %s.." % gk, "; ".join("%s: %s" % (v, sorted(ks)[:4]) for v, ks in sorted(variants.items(), key=lambda kv: str(kv[0]))))
+        want = ref.get(gk)
+        got = sorted(variants, key=str)
+        chk.ob("cost/documented/%s" % gk, want is not None and len(variants) == 1 and _norm(want) == got[0],
+               "the micro-step count and bus accesses of the form are the documented ones", "forms %s.." % gk,
+               "measured %s, documented %s" % (got, want))
+    chk.floor("instruction form groups with a documented cost", len(groups), 123)
     # the interrupt entry routine itself has a fixed length
     int_starts = set()
     for a in g.prog:
@@ -313,3 +342,13 @@ def paths_to_loader(g, starts):
                     return None
                 stack.append((t, path + [t], onpath | {t}))
     return out
+
+
+def _norm(x):
+    """signature as nested tuples; bus accesses reduced to their kind ('r'/'w'): which register
+    supplies the address differs between sibling forms and does not enter the cost"""
+    if isinstance(x, (list, tuple)):
+        return tuple(_norm(y) for y in x)
+    if isinstance(x, str) and x[:1] in ("r", "w"):
+        return x[:1]
+    return x
